@@ -412,8 +412,14 @@ class Array(metaclass=MetaArray):
                 # args must be an array of correct dimensions
                 offsets = np.empty(shape, dtype="int64")
                 offset += items * 8
+                # (nested lists are not indexed by tuples)
+                items_of = (
+                    value
+                    if hasattr(value, "shape") or hasattr(value, "_shape")
+                    else _object_array(value, shape)
+                )
                 for idx in iter_index(shape, order):
-                    extra[idx] = cls._itemtype._inspect_args(value[idx])
+                    extra[idx] = cls._itemtype._inspect_args(items_of[idx])
                     offsets[idx] = offset
                     offset += _to_slot_size(extra[idx].size)
                 size = _to_slot_size(offset)
